@@ -41,6 +41,10 @@ func c08Extra(p *Program, r *Report) {
 		r.Floor("C08.R8", k, 1)
 	}
 	c08BodyEveryIteration(p, r, m)
+	r.Explain("R11 while ErrReturn travels from the statement list to the invocation root no handler it crosses writes the value cell (the returned value sits there).")
+	c08ReturnValueTravels(p, r, m, buildErrAnalysis(m))
+	r.Explain("R12 switch hands case value and subject to the comparator as evaluated (still inside their interface when read from a container): the comparator takes each operand out of its interface independently of the other, so the match agrees with ==.")
+	comparatorOperandsIndependent(p, r, m, "C08.R12")
 	// R9
 	type site struct {
 		fn     *ssa.Function
@@ -194,6 +198,62 @@ func valueOfEvaluation(tt *typeTerms, v ssa.Value, depth int) bool {
 		for _, e := range x.Edges {
 			if valueOfEvaluation(tt, e, depth+1) {
 				return true
+			}
+		}
+	}
+	return false
+}
+
+// c08ReturnValueTravels (R11): `return` yields its value. Between the statement list raising ErrReturn (the value sits in the
+// value cell) and the invocation root turning it into the result, every handler the signal crosses leaves the value cell
+// alone: a store to the value cell at a point where the error cell may hold ErrReturn replaces the returned value.
+func c08ReturnValueTravels(p *Program, r *Report, m *vmModel, ea *errAnalysis) {
+	bRet := ea.sentinel("ErrReturn")
+	if bRet == 0 {
+		r.Undecided("C08.R11", "ErrReturn", "vm", "sentinel not found")
+		return
+	}
+	n := 0
+	for _, fn := range m.funcsOnRecord() {
+		base := m.baseOf(fn)
+		cnt := 0
+		for _, b := range fn.Blocks {
+			for _, in := range b.Instrs {
+				st, ok := in.(*ssa.Store)
+				if !ok || m.cellAddr(st.Addr, base) != "rv" {
+					continue
+				}
+				s := ea.before[fn][st]
+				if s == nil {
+					continue
+				}
+				n++
+				if s.cell&bRet == 0 || ea.hasRecoverCall(fn) {
+					continue // a panic handler replaces the whole outcome of the operation, error included
+				}
+				if x, f, ok := fieldLoad(st.Val); ok && sameBase(x, base) && m.cell[f] == "rv" {
+					continue // puts back the value it saved from this very cell
+				}
+				cnt++
+				r.Fail("C08.R11", fmt.Sprintf("%s|value cell overwritten under ErrReturn #%d", funcName(fn), cnt), p.Pos(instrPos(st)),
+					"the value cell is written while the error cell can hold ErrReturn: a `return v` that crosses this statement yields what is stored here instead of v")
+			}
+		}
+	}
+	r.Floor("C08.R11", n, 100)
+	if n >= 100 {
+		r.OK("C08.R11", "value cell|untouched while ErrReturn travels", "vm", fmt.Sprintf("%d stores to the value cell examined", n))
+	}
+}
+
+// hasRecoverCall: fn itself calls recover().
+func (a *errAnalysis) hasRecoverCall(fn *ssa.Function) bool {
+	for _, b := range fn.Blocks {
+		for _, in := range b.Instrs {
+			if c, ok := in.(*ssa.Call); ok {
+				if bi, ok := c.Call.Value.(*ssa.Builtin); ok && bi.Name() == "recover" {
+					return true
+				}
 			}
 		}
 	}
